@@ -134,12 +134,12 @@ Qed.
 (* ---- the dot-entry test of the code equals dotb when root.end = root_len in {0,1} --------- *)
 Definition root_acc (k : Z) : list Z := if k =? 1 then [SEP] else [].
 
-Lemma dot_entry_before_dotb : forall k top m i r,
-  (k = 0 \/ k = 1) -> k <= i -> r = Z.of_nat (length (top ++ root_acc k)) ->
-  dot_entry_before (B (top ++ root_acc k) m) i r k = dotb (top ++ root_acc k).
+Lemma dot_entry_before_dotb : forall re k top m i r,
+  (k = 0 \/ k = 1) -> re <= i -> r = Z.of_nat (length (top ++ root_acc k)) ->
+  dot_entry_before (B (top ++ root_acc k) m) i r re k = dotb (top ++ root_acc k).
 Proof.
-  intros k top m i r Hk Hi Hr. unfold dot_entry_before.
-  replace (i >=? k) with true by lia. cbn [andb].
+  intros re k top m i r Hk Hi Hr. unfold dot_entry_before.
+  replace (i >=? re) with true by lia. cbn [andb].
   destruct Hk as [-> | ->]; [change (root_acc 0) with (@nil Z) in *|change (root_acc 1) with [SEP] in *].
   - rewrite app_nil_r in *. destruct top as [|d [|e top']].
     + cbn in Hr. subst r. reflexivity.
@@ -170,16 +170,16 @@ Proof.
 Qed.
 
 (* ---- refinement of copy_loop to P1 --------------------------------------------------------------- *)
-Lemma copy_loop_refine : forall s k fuel i top m rest acc',
-  (k = 0 \/ k = 1) -> k <= i -> i <= zlen s ->
+Lemma copy_loop_refine : forall s re k fuel i top m rest acc',
+  (k = 0 \/ k = 1) -> 0 <= re -> re <= i -> i <= zlen s ->
   skipn (Z.to_nat i) s = rest -> (length rest + 1 < m)%nat ->
   P1 fuel rest (top ++ root_acc k) = Some acc' ->
-  exists m', copy_loop fuel s (zlen s) k i (Z.of_nat (length (top ++ root_acc k))) (B (top ++ root_acc k) m)
+  exists m', copy_loop fuel s (zlen s) re k i (Z.of_nat (length (top ++ root_acc k))) (B (top ++ root_acc k) m)
              = Some (Z.of_nat (length acc'), B acc' m') /\
              (length acc' + m' = length (top ++ root_acc k) + m)%nat /\ (1 < m')%nat /\
              exists top', acc' = top' ++ root_acc k.
 Proof.
-  intros s k. induction fuel as [|f IH]; intros i top m rest acc' Hk Hki Hi Hs Hm HP; [discriminate|].
+  intros s re k. induction fuel as [|f IH]; intros i top m rest acc' Hk Hre Hki Hi Hs Hm HP; [discriminate|].
   cbn [P1] in HP. cbn [copy_loop].
   assert (Hlen : length rest = (length s - Z.to_nat i)%nat) by (rewrite <- Hs; apply skipn_length).
   destruct rest as [|c rest'].
@@ -202,7 +202,7 @@ Proof.
         rewrite Et. rewrite set_pop by reflexivity.
         replace (Z.of_nat (length (DOT :: top' ++ root_acc k)) - 1) with (Z.of_nat (length (top' ++ root_acc k)))
           by (cbn [length]; lia).
-        destruct (IH (j + 1) top' (S m) (drop_seps rest') acc' Hk ltac:(lia) Hj J3 ltac:(cbn [length] in Hm; lia) HP)
+        destruct (IH (j + 1) top' (S m) (drop_seps rest') acc' Hk Hre ltac:(lia) Hj J3 ltac:(cbn [length] in Hm; lia) HP)
           as (m' & C1 & C2 & C3 & C4).
         exists m'. rewrite C1. repeat split; [cbn [length]; lia|exact C3|exact C4].
       * destruct m as [|m0]; [lia|].
@@ -210,7 +210,7 @@ Proof.
         replace (Z.of_nat (length (top ++ root_acc k)) + 1) with (Z.of_nat (length ((SEP :: top) ++ root_acc k)))
           by (cbn [length app]; lia).
         change (SEP :: top ++ root_acc k) with ((SEP :: top) ++ root_acc k) in *.
-        destruct (IH (j + 1) (SEP :: top) m0 (drop_seps rest') acc' Hk ltac:(lia) Hj J3 ltac:(cbn [length] in Hm; lia) HP)
+        destruct (IH (j + 1) (SEP :: top) m0 (drop_seps rest') acc' Hk Hre ltac:(lia) Hj J3 ltac:(cbn [length] in Hm; lia) HP)
           as (m' & C1 & C2 & C3 & C4).
         exists m'. rewrite C1. repeat split; [cbn [length app] in *; lia|exact C3|exact C4].
     + destruct m as [|m0]; [lia|].
@@ -218,7 +218,7 @@ Proof.
       replace (Z.of_nat (length (top ++ root_acc k)) + 1) with (Z.of_nat (length ((c :: top) ++ root_acc k)))
         by (cbn [length app]; lia).
       change (c :: top ++ root_acc k) with ((c :: top) ++ root_acc k) in *.
-      destruct (IH (i + 1) (c :: top) m0 rest' acc' Hk ltac:(lia) ltac:(lia) Hs' ltac:(cbn [length] in Hm; lia) HP)
+      destruct (IH (i + 1) (c :: top) m0 rest' acc' Hk Hre ltac:(lia) ltac:(lia) Hs' ltac:(cbn [length] in Hm; lia) HP)
         as (m' & C1 & C2 & C3 & C4).
       exists m'. rewrite C1. repeat split; [cbn [length app] in *; lia|exact C3|exact C4].
 Qed.
@@ -298,101 +298,6 @@ Proof.
       cbn [rev]. rewrite <- app_assoc. reflexivity.
 Qed.
 
-(* ---- passes 2, 3 and the tail on a buffer without the pattern  '.' '.' (sep | NUL) -------- *)
-Definition nodd (buf : list Z) : Prop :=
-  forall i, 1 <= i -> get buf (i - 1) = DOT -> get buf i = DOT ->
-            get buf (i + 1) <> 0 /\ get buf (i + 1) <> SEP.
-
-Lemma dotdot_at_false : forall buf i r last, nodd buf -> dotdot_at buf i r last = false.
-Proof.
-  intros buf i r last N. unfold dotdot_at.
-  destruct (i >? 2) eqn:Ei; [|rewrite andb_false_r; reflexivity].
-  destruct (get buf (i - 1) =? DOT) eqn:E1; [|rewrite !andb_false_r; reflexivity].
-  destruct (get buf i =? DOT) eqn:E2; [|rewrite !andb_false_r; reflexivity].
-  destruct (N i ltac:(lia) ltac:(lia) ltac:(lia)) as [A B0].
-  unfold is_sep. replace (get buf (i + 1) =? 0) with false by lia.
-  replace (get buf (i + 1) =? SEP) with false by lia. rewrite !andb_false_r. reflexivity.
-Qed.
-
-Lemma dotdot_loop_id : forall buf r, nodd buf -> forall fuel i last next,
-  (Z.to_nat (r - i) < fuel)%nat -> dotdot_loop fuel i r last next buf = Some (r, buf).
-Proof.
-  intros buf r N. induction fuel as [|f IH]; intros i last next Hf; [lia|].
-  cbn [dotdot_loop]. destruct (i <? r) eqn:E; [|reflexivity].
-  rewrite dotdot_at_false by exact N. apply IH. lia.
-Qed.
-
-Lemma root_scan_id : forall buf r fuel, nodd buf -> root_dotdot_scan (S fuel) buf r 1 = Some 1.
-Proof.
-  intros buf r fuel N. cbn [root_dotdot_scan].
-  change (1 + 1) with 2. change (1 + 2) with 3.
-  destruct (get buf 1 =? DOT) eqn:E1; [|rewrite !andb_false_r; reflexivity].
-  destruct (get buf 2 =? DOT) eqn:E2; [|rewrite !andb_false_r; reflexivity].
-  pose proof (N 2 ltac:(lia)) as N2. change (2 - 1) with 1 in N2. change (2 + 1) with 3 in N2.
-  destruct (N2 ltac:(lia) ltac:(lia)) as [A B0].
-  replace (get buf 3 =? SEP) with false by lia.
-  replace (get buf 3 =? 0) with false by lia.
-  rewrite !andb_false_r. reflexivity.
-Qed.
-
-(* the final text, from the reversed output of the first pass *)
-Definition fin (acc : list Z) : list Z :=
-  let acc2 := match acc with
-              | d :: ((e :: _) as t) => if (e =? SEP) && (d =? DOT) then t else acc
-              | _ => acc
-              end in
-  match acc2 with [] => [DOT] | _ => rev acc2 end.
-
-Lemma cstr_B : forall acc m, Forall (fun c => c <> 0) acc -> cstr (B acc (S m)) = rev acc.
-Proof.
-  intros acc m H. unfold B. apply Forall_rev in H. induction (rev acc) as [|c l IH].
-  - reflexivity.
-  - inversion H; subst. cbn [app cstr]. apply Z.eqb_neq in H2. rewrite H2. f_equal. apply IH. assumption.
-Qed.
-
-Lemma get_B_0 : forall acc m, Forall (fun c => c <> 0) acc -> acc <> [] -> get (B acc m) 0 <> 0.
-Proof.
-  intros acc m H N. unfold get, B. cbn. apply Forall_rev in H.
-  destruct (rev acc) as [|c l] eqn:E.
-  - apply (f_equal (@rev Z)) in E. rewrite rev_involutive in E. cbn in E. congruence.
-  - cbn. inversion H; assumption.
-Qed.
-
-Lemma tail_rules_fin : forall acc m, nodd (B acc (S (S m))) -> Forall (fun c => c <> 0) acc ->
-  cstr (tail_rules (Z.of_nat (length acc)) (B acc (S (S m)))) = fin acc.
-Proof.
-  intros acc m N Z0. unfold tail_rules. set (r := Z.of_nat (length acc)).
-  assert (Fin : forall acc2 m2, Forall (fun c => c <> 0) acc2 ->
-            cstr (if get (B acc2 (S (S m2))) 0 =? 0 then set (set (B acc2 (S (S m2))) 0 DOT) 1 0 else B acc2 (S (S m2)))
-            = match acc2 with [] => [DOT] | _ => rev acc2 end).
-  { intros acc2 m2 H2. destruct acc2 as [|x acc2'].
-    - reflexivity.
-    - pose proof (get_B_0 (x :: acc2') (S (S m2)) H2 ltac:(discriminate)) as G.
-      replace (get (B (x :: acc2') (S (S m2))) 0 =? 0) with false by lia. apply cstr_B. exact H2. }
-  destruct acc as [|d [|e t]].
-  - (* r = 0 *) cbn [length] in r. subst r. cbn [Z.of_nat Z.geb Z.compare andb]. apply (Fin [] m). constructor.
-  - (* r = 1 *) cbn [length] in r. subst r. cbn [Z.of_nat Pos.of_succ_nat Z.geb Z.compare andb].
-    apply (Fin [d] m). exact Z0.
-  - (* r >= 2 *)
-    assert (Hr : r = Z.of_nat (length (d :: e :: t))) by reflexivity.
-    replace (r >=? 2) with true by (cbn [length] in Hr; lia). cbn [andb].
-    rewrite (get_top d (e :: t) _ r Hr), (get_second d e t _ r Hr). unfold is_sep. unfold fin. cbv beta iota zeta.
-    destruct ((e =? SEP) && (d =? DOT)) eqn:E1.
-    + rewrite (set_pop d (e :: t) _ r Hr).
-      rewrite (get_B_ge (e :: t) _ (r - 1)) by (cbn [length] in *; lia).
-      replace (0 =? SEP) with false by reflexivity. rewrite !andb_false_r.
-      inversion Z0; subst. apply (Fin (e :: t) (S m)). assumption.
-    + assert (R2 : (r >=? 3) && (get (B (d :: e :: t) (S (S m))) (r - 3) =? DOT) &&
-                   (get (B (d :: e :: t) (S (S m))) (r - 2) =? DOT) &&
-                   (get (B (d :: e :: t) (S (S m))) (r - 1) =? SEP) = false).
-      { destruct (r >=? 3) eqn:E3; [|reflexivity]. cbn [andb].
-        destruct (get (B (d :: e :: t) (S (S m))) (r - 3) =? DOT) eqn:G3; [|reflexivity].
-        destruct (get (B (d :: e :: t) (S (S m))) (r - 2) =? DOT) eqn:G2; [|reflexivity]. cbn [andb].
-        destruct (N (r - 2) ltac:(lia) ltac:(replace (r - 2 - 1) with (r - 3) by lia; lia) ltac:(lia)) as [_ A].
-        replace (r - 2 + 1) with (r - 1) in A by lia. lia. }
-      rewrite R2. apply (Fin (d :: e :: t) m). exact Z0.
-Qed.
-
 (* ---- assembling the passes ------------------------------------------------------------------- *)
 Lemma P1_forall : forall (P : Z -> Prop) fuel rest acc acc',
   P SEP -> Forall P rest -> Forall P acc -> P1 fuel rest acc = Some acc' -> Forall P acc'.
@@ -405,72 +310,6 @@ Proof.
       destruct (x =? SEP); [apply IHl; assumption|constructor; assumption].
     + destruct (dotb acc); [destruct acc; [constructor|inversion Ha; assumption]|constructor; assumption].
   - apply (IH rest' (c :: acc) acc' Ps H3) in H; [exact H|constructor; assumption].
-Qed.
-
-Lemma zix_normal_k : forall s k rel,
-  (k = 0 \/ k = 1) -> s <> [] -> s = root_acc k ++ rel -> has_root rel = false ->
-  Forall (fun c => c <> 0) s ->
-  (forall m, nodd (B (rev (emit (fields rel)) ++ root_acc k) m)) ->
-  zix_normal_opt s = Some (fin (rev (emit (fields rel)) ++ root_acc k)).
-Proof.
-  intros s k rel Hk Hne Hs Hrel Hnz Hnodd.
-  set (acc' := rev (emit (fields rel)) ++ root_acc k) in *.
-  assert (Hlen : length s = (Z.to_nat k + length rel)%nat).
-  { rewrite Hs, app_length. destruct Hk as [-> | ->]; reflexivity. }
-  (* state after root copy *)
-  assert (S1 : exists re rb, root_path_range s = Some (rb, re) /\ re = k /\ sz (re - rb) = k /\
-               copy_root (S (length s)) s k 0 0 (repeat 0 (length s + 2))
-               = Some (k, B (root_acc k) (length s + 2 - Z.to_nat k))).
-  { destruct Hk as [-> | ->].
-    - change (root_acc 0) with (@nil Z) in *. cbn [app] in Hs. subst rel.
-      exists 0, 0. unfold root_path_range.
-      destruct s as [|c s']; [congruence|]. cbn in Hrel. unfold is_sep, rd, get. cbn. rewrite Hrel.
-      repeat split.
-    - change (root_acc 1) with [SEP] in *. exists 1, 0. unfold root_path_range. subst s.
-      unfold is_sep, rd. change (get ([SEP] ++ rel) 0) with SEP. rewrite Z.eqb_refl.
-      cbn [root_dir_loop length app]. unfold is_sep, rd.
-      assert (G1 : get (SEP :: rel) 1 =? SEP = false).
-      { unfold get. cbn. destruct rel as [|c rel']; [reflexivity|exact Hrel]. }
-      rewrite G1. repeat split.
-      cbn [copy_root]. replace (0 <? 1) with true by reflexivity.
-      unfold is_sep, rd. change (get (SEP :: rel) 0) with SEP. rewrite Z.eqb_refl.
-      replace (0 + 1 <? 1) with false by reflexivity. cbn [length].
-      set (n := (S (length rel) + 2 - Z.to_nat 1)%nat).
-      replace (S (length rel) + 2)%nat with (S n) by (subst n; lia).
-      change (repeat 0 (S n)) with (B [] (S n)).
-      rewrite set_push by reflexivity. reflexivity. }
-  destruct S1 as (re & rb & R1 & -> & R3 & R4).
-  (* first pass *)
-  assert (HP : P1 (S (length s)) rel ([] ++ root_acc k) = Some acc').
-  { pose proof (P1_spec (S (length s)) rel [] (root_acc k)) as Q. cbn [rev app] in *. apply Q.
-    - lia.
-    - destruct Hk as [-> | ->]; reflexivity.
-    - constructor.
-    - intros _. exact Hrel. }
-  assert (Hskip : skipn (Z.to_nat k) s = rel).
-  { rewrite Hs. destruct Hk as [-> | ->]; reflexivity. }
-  destruct (copy_loop_refine s k (S (length s)) k [] (length s + 2 - Z.to_nat k) rel acc' Hk ltac:(lia)
-              ltac:(unfold zlen; lia) Hskip ltac:(lia) HP) as (m' & C1 & C2 & C3 & _).
-  cbn [app] in C1, C2.
-  assert (Lk : length (root_acc k) = Z.to_nat k) by (destruct Hk as [-> | ->]; reflexivity).
-  rewrite Lk in C1, C2. rewrite Z2Nat.id in C1 by lia.
-  assert (Nz : Forall (fun c => c <> 0) acc').
-  { eapply (P1_forall (fun c => c <> 0)); [| | |exact HP].
-    - cbv beta. discriminate.
-    - rewrite Hs in Hnz. apply Forall_app in Hnz. apply Hnz.
-    - cbn [app]. destruct Hk as [-> | ->]; repeat constructor. discriminate. }
-  unfold zix_normal_opt, zix_normal_full. destruct s as [|c0 s0]; [congruence|].
-  set (s := c0 :: s0) in *.
-  unfold pass1. rewrite R1, R3, R4, C1. unfold pass2.
-  rewrite dotdot_loop_id; [|apply Hnodd|].
-  2:{ assert (Z.to_nat (Z.of_nat (length acc') - k) <= length s)%nat by lia. nia. }
-  destruct m' as [|[|m'']]; [lia|lia|].
-  assert (P34 : pass34 k (Z.of_nat (length acc')) (B acc' (S (S m''))) =
-                Some (tail_rules (Z.of_nat (length acc')) (B acc' (S (S m''))))).
-  { unfold pass34. destruct Hk as [-> | ->]; [reflexivity|].
-    cbn [Z.eqb negb andb]. destruct (is_sep (get (B acc' (S (S m''))) (1 - 1))); [|reflexivity].
-    rewrite B_length. cbn [andb]. rewrite root_scan_id by apply Hnodd. reflexivity. }
-  rewrite P34. rewrite tail_rules_fin; [reflexivity|apply Hnodd|exact Nz].
 Qed.
 
 (* ---- the spec machine run on all fields (empty ones included) ---------------------------------- *)
@@ -508,17 +347,6 @@ Proof.
     rewrite (step_trail_irrelevant R o1 t1 t2). reflexivity.
 Qed.
 
-Lemma fold_nodd : forall R X out t, (forall f, In f X -> is_dotdot f = false) ->
-  fst (fold_left (norm_step R) X (out, t)) = rev (filter keepf X) ++ out.
-Proof.
-  induction X as [|x X IH]; intros out t H; [reflexivity|].
-  cbn [fold_left filter]. unfold norm_step at 2. unfold keepf at 1.
-  destruct (is_empty x || is_dot x) eqn:E; cbn [negb].
-  - apply IH. intros f Hf. apply H. right. exact Hf.
-  - rewrite (H x (or_introl eq_refl)). rewrite IH by (intros f Hf; apply H; right; exact Hf).
-    cbn [rev]. rewrite <- app_assoc. reflexivity.
-Qed.
-
 Definition body (K : list elem) : list Z := concat (map (fun f => f ++ [SEP]) K).
 
 Lemma join_snoc : forall K l, join_elems (K ++ [l]) = body K ++ l.
@@ -548,125 +376,10 @@ Proof. intros. unfold body. rewrite map_app, concat_app. cbn. rewrite app_nil_r.
 Lemma rev_root_acc : forall k, rev (root_acc k) = root_acc k.
 Proof. intro k. unfold root_acc. destruct (k =? 1); reflexivity. Qed.
 
-Lemma fin_sep_top : forall t, fin (SEP :: t) = rev (SEP :: t).
-Proof.
-  intro t. unfold fin. destruct t as [|e t']; [reflexivity|].
-  replace ((e =? SEP) && (SEP =? DOT)) with false by (rewrite andb_false_r; reflexivity). reflexivity.
-Qed.
-
-Lemma fin_dot_sep_top : forall t, fin (DOT :: SEP :: t) = rev (SEP :: t).
-Proof. intro t. reflexivity. Qed.
-
-(* the final text of the model equals the rendered result of the spec machine *)
-Lemma fin_render : forall k fs, (k = 0 \/ k = 1) -> fs <> [] -> Forall sepfree fs ->
-  (forall f, In f fs -> is_dotdot f = false) ->
-  fin (rev (emit fs) ++ root_acc k) = render (k =? 1) (normal_elems (k =? 1) fs).
-Proof.
-  intros k fs Hk N Hsf Hdd. rewrite emit_body by exact N.
-  destruct (exists_last N) as (X & l & ->). rewrite removelast_app1, last_app1.
-  set (K := filter keepf X).
-  assert (HddX : forall f, In f X -> is_dotdot f = false) by (intros f Hf; apply Hdd; apply in_or_app; left; exact Hf).
-  assert (Hl : is_dotdot l = false) by (apply Hdd; apply in_or_app; right; left; reflexivity).
-  assert (Hsl : sepfree l) by (apply Forall_app in Hsf as [_ H]; inversion H; assumption).
-  unfold normal_elems. rewrite fold_left_snoc.
-  pose proof (fold_nodd (k =? 1) X [] false HddX) as F. rewrite app_nil_r in F. fold K in F.
-  destruct (fold_left (norm_step (k =? 1)) X ([], false)) as [o1 t1]. cbn [fst] in F. subst o1.
-  unfold norm_step. destruct (is_empty l || is_dot l) eqn:El.
-  - (* the last field is "" or ".": nothing is pushed, a separator is due *)
-    assert (HK : forall x K', K = K' ++ [x] -> is_dotdot x = false).
-    { intros x K' E. apply HddX. assert (In x K) by (rewrite E; apply in_or_app; right; left; reflexivity).
-      unfold K in H. apply filter_In in H. apply H. }
-    unfold norm_finish. rewrite rev_app_distr.
-    destruct K as [|x0 K0] eqn:EK using rev_ind.
-    + (* nothing kept *)
-      cbn [rev body map concat app].
-      apply orb_true_iff in El as [El | El].
-      * apply is_empty_eq in El. subst l. cbn [rev app].
-        destruct Hk as [-> | ->]; reflexivity.
-      * apply is_dot_eq in El. subst l. cbn [rev app].
-        destruct Hk as [-> | ->]; reflexivity.
-    + clear IHK0. rewrite body_snoc. rewrite rev_app_distr. cbn [rev app].
-      replace (rev (K0 ++ [x0])) with (x0 :: rev K0) by (rewrite rev_app_distr; reflexivity).
-      cbv iota. rewrite (HK x0 K0 eq_refl). cbn [rev]. rewrite rev_involutive.
-      unfold render. rewrite join_snoc, body_snoc, app_nil_r.
-      rewrite !rev_app_distr. cbn [rev app]. rewrite <- !app_assoc. cbn [app].
-      assert (Hrev : rev (SEP :: (rev x0 ++ rev (body K0)) ++ root_acc k) =
-                     (if k =? 1 then [SEP] else []) ++ body K0 ++ x0 ++ [SEP]).
-      { cbn [rev]. rewrite !rev_app_distr, !rev_involutive, rev_root_acc. rewrite <- !app_assoc.
-        destruct Hk as [-> | ->]; reflexivity. }
-      apply orb_true_iff in El as [El | El].
-      * apply is_empty_eq in El. subst l. cbn [rev app]. rewrite fin_sep_top. exact Hrev.
-      * apply is_dot_eq in El. subst l. cbn [rev app]. rewrite fin_dot_sep_top. exact Hrev.
-  - (* the last field is a proper name *)
-    rewrite Hl. unfold norm_finish. rewrite Hl.
-    apply orb_false_iff in El as [Ee Ed].
-    change (rev (l :: rev K)) with (rev (rev K) ++ [l]). rewrite rev_involutive.
-    unfold render. rewrite join_snoc.
-    assert (Hfin : forall acc, (forall d e t, acc = d :: e :: t -> (e =? SEP) && (d =? DOT) = false) -> acc <> [] ->
-                   fin acc = rev acc).
-    { intros acc H1 H2. unfold fin. destruct acc as [|d [|e t]]; [congruence|reflexivity|].
-      rewrite (H1 d e t eq_refl). reflexivity. }
-    rewrite Hfin.
-    + rewrite ?rev_app_distr, ?rev_involutive, ?rev_root_acc, <- ?app_assoc.
-      destruct Hk as [-> | ->]; reflexivity.
-    + intros d e t E. rewrite rev_app_distr in E. rewrite <- ?app_assoc in E.
-      destruct l as [|c1 l1] using rev_ind; [discriminate|]. clear IHl1.
-      rewrite rev_app_distr in E. cbn [rev app] in E. inversion E; subst d.
-      destruct l1 as [|c2 l2] using rev_ind.
-      * cbn [app] in *. unfold is_dot in Ed. cbn in Ed. rewrite andb_true_r in Ed. rewrite Ed. apply andb_false_r.
-      * clear IHl2. rewrite rev_app_distr in H1. cbn [rev app] in H1. inversion H1; subst e.
-        unfold sepfree in Hsl. rewrite Forall_app in Hsl. destruct Hsl as [Hsl _].
-        rewrite Forall_app in Hsl. destruct Hsl as [_ Hsl]. inversion Hsl; subst.
-        apply Z.eqb_neq in H3. rewrite H3. reflexivity.
-    + destruct l as [|c1 l1]; [discriminate|]. intro A. apply (f_equal (@length Z)) in A.
-      rewrite !app_length, rev_length in A. cbn in A. rewrite app_length in A. cbn in A. lia.
-Qed.
-
-(* ---- the pattern-freeness of the first-pass output, from the fields of the input -------------- *)
-Definition Qf (t : list Z) : bool := forallb (fun f => negb (ends_dotdot f)) (fields t).
-
-Lemma ends_dotdot_cons : forall a f, ends_dotdot f = true -> ends_dotdot (a :: f) = true.
-Proof. intros a f H. destruct f as [|b [|c f']]; [discriminate|discriminate|exact H]. Qed.
-
-Lemma Qf_tail : forall a t, Qf (a :: t) = true -> Qf t = true.
-Proof.
-  intros a t H. unfold Qf in *. cbn [fields] in H. destruct (a =? SEP).
-  - cbn in H. exact H.
-  - pose proof (fields_nonnil t) as N. destruct (fields t) as [|f fs]; [congruence|].
-    cbn [forallb] in *. apply andb_true_iff in H as [H1 H2]. rewrite H2, andb_true_r.
-    destruct (ends_dotdot f) eqn:E; [|reflexivity]. rewrite (ends_dotdot_cons a f E) in H1. discriminate.
-Qed.
-
 Lemma nth_repeat0 : forall n m, nth n (repeat 0 m) 0 = 0.
 Proof.
   intros n m. destruct (nth_in_or_default n (repeat 0 m) 0) as [I | I]; [|exact I].
   apply repeat_spec in I. exact I.
-Qed.
-
-Lemma Qf_nth : forall t m, Qf t = true -> Forall (fun c => c <> 0) t -> forall n,
-  nth n (t ++ repeat 0 m) 0 = DOT -> nth (S n) (t ++ repeat 0 m) 0 = DOT ->
-  nth (S (S n)) (t ++ repeat 0 m) 0 <> 0 /\ nth (S (S n)) (t ++ repeat 0 m) 0 <> SEP.
-Proof.
-  induction t as [|a t IH]; intros m HQ HZ n H1 H2.
-  - cbn [app] in H1. rewrite nth_repeat0 in H1. discriminate.
-  - inversion HZ; subst. destruct n as [|n'].
-    + cbn [app nth] in *. subst a. destruct t as [|b t2].
-      * cbn [app] in H2. rewrite nth_repeat0 in H2. discriminate.
-      * cbn [app nth] in *. subst b. destruct t2 as [|c t3].
-        -- cbn in HQ. discriminate.
-        -- cbn [app nth]. split; [rewrite Forall_forall in HZ; apply HZ; right; right; left; reflexivity|].
-           intro A. subst c. cbn in HQ. discriminate.
-    + cbn [app nth] in *. apply (IH m (Qf_tail _ _ HQ) H4 n' H1 H2).
-Qed.
-
-Lemma nodd_B : forall acc m, Qf (rev acc) = true -> Forall (fun c => c <> 0) acc -> nodd (B acc m).
-Proof.
-  intros acc m HQ HZ i Hi G1 G2. unfold get in *.
-  replace (i - 1 <? 0) with false in G1 by lia. replace (i <? 0) with false in G2 by lia.
-  replace (i + 1 <? 0) with false by lia.
-  replace (Z.to_nat i) with (S (Z.to_nat (i - 1))) in G2 by lia.
-  replace (Z.to_nat (i + 1)) with (S (S (Z.to_nat (i - 1)))) by lia.
-  unfold B in *. apply (Qf_nth (rev acc) m HQ (Forall_rev HZ) _ G1 G2).
 Qed.
 
 Lemma fields_body : forall K l, Forall sepfree K -> sepfree l -> fields (body K ++ l) = K ++ [l].
@@ -683,67 +396,7 @@ Proof.
   rewrite Forall_forall in H. apply H. exact Hx.
 Qed.
 
-Lemma Qf_first_pass : forall k fs, (k = 0 \/ k = 1) -> fs <> [] -> Forall sepfree fs ->
-  forallb (fun f => negb (ends_dotdot f)) fs = true ->
-  Qf (rev (rev (emit fs) ++ root_acc k)) = true.
-Proof.
-  intros k fs Hk N Hsf HP. rewrite rev_app_distr, rev_involutive, rev_root_acc.
-  rewrite emit_body by exact N.
-  assert (HK : Forall sepfree (filter keepf (removelast fs))) by (apply Forall_filter, Forall_removelast; exact Hsf).
-  assert (Hl : sepfree (last fs [])) by (apply Forall_last; assumption).
-  assert (Q0 : Qf (body (filter keepf (removelast fs)) ++ last fs []) = true).
-  { unfold Qf. rewrite fields_body by assumption. rewrite forallb_forall in *. intros x Hx.
-    apply HP. apply in_app_or in Hx as [Hx | [<- | []]].
-    - apply filter_In in Hx as [Hx _]. destruct (exists_last N) as (X & l & ->).
-      rewrite removelast_app1 in Hx. apply in_or_app. left. exact Hx.
-    - destruct (exists_last N) as (X & l & ->). rewrite last_app1. apply in_or_app. right. left. reflexivity. }
-  destruct Hk as [-> | ->]; [exact Q0|].
-  change (root_acc 1) with [SEP]. unfold Qf in *. cbn [app fields]. rewrite Z.eqb_refl. cbn. exact Q0.
-Qed.
-
-(* ---- the partial theorem: on no_dotdot_tail the model returns exactly std_normal ---------- *)
-Lemma ends_dotdot_of_is_dotdot : forall f, ends_dotdot f = false -> is_dotdot f = false.
-Proof.
-  intros f H. destruct (is_dotdot f) eqn:E; [|reflexivity]. apply is_dotdot_eq in E. subst f. cbn in H. discriminate.
-Qed.
-
-Lemma zix_normal_on_class : forall s, c_string s -> no_dotdot_tail s = true ->
-  zix_normal_opt s = Some (std_normal s).
-Proof.
-  intros s Hc H. unfold no_dotdot_tail in H. apply andb_true_iff in H as [HA HF].
-  apply negb_true_iff in HA. destruct s as [|c s']; [reflexivity|].
-  assert (Main : forall k rel, (k = 0 \/ k = 1) -> c :: s' = root_acc k ++ rel -> has_root rel = false ->
-            has_root (c :: s') = (k =? 1) ->
-            forallb (fun e => negb (ends_dotdot e)) (fields rel) = true ->
-            elems (c :: s') = elems_of (fields rel) ->
-            zix_normal_opt (c :: s') = Some (std_normal (c :: s'))).
-  { intros k rel Hk Hs Hrel HR HP HE.
-    pose proof (fields_nonnil rel) as N. pose proof (fields_sepfree_all rel) as Hsf.
-    assert (Nz : Forall (fun x => x <> 0) (rev (emit (fields rel)) ++ root_acc k)).
-    { apply (P1_forall (fun x => x <> 0) (S (length rel)) rel (root_acc k)).
-      - cbv beta. discriminate.
-      - unfold c_string in Hc. rewrite Hs in Hc. apply Forall_app in Hc. apply Hc.
-      - destruct Hk as [-> | ->]; repeat constructor. discriminate.
-      - pose proof (P1_spec (S (length rel)) rel [] (root_acc k)) as Q. cbn [rev app] in Q. apply Q.
-        + lia.
-        + destruct Hk as [-> | ->]; reflexivity.
-        + constructor.
-        + intros _. exact Hrel. }
-    rewrite (zix_normal_k (c :: s') k rel Hk ltac:(discriminate) Hs Hrel Hc).
-    - f_equal. rewrite fin_render; [|exact Hk|exact N|exact Hsf|].
-      + unfold std_normal. rewrite HR, HE. rewrite normal_elems_of_fields by exact N. reflexivity.
-      + intros f Hf. apply ends_dotdot_of_is_dotdot. rewrite forallb_forall in HP.
-        apply negb_true_iff. apply HP. exact Hf.
-    - intro m. apply nodd_B; [|exact Nz]. apply Qf_first_pass; assumption. }
-  destruct (c =? SEP) eqn:Ec.
-  - apply Z.eqb_eq in Ec. subst c. apply (Main 1 s'); [right; reflexivity|reflexivity| |reflexivity| |].
-    + destruct s' as [|d s'']; [reflexivity|]. cbn in HA. cbn. exact HA.
-    + cbn [fields] in HF. rewrite Z.eqb_refl in HF. cbn in HF. exact HF.
-    + rewrite elems_unfold. cbn [fields]. rewrite Z.eqb_refl. apply elems_of_cons_empty. apply fields_nonnil.
-  - apply (Main 0 (c :: s')); [left; reflexivity|reflexivity|cbn; exact Ec|cbn; exact Ec|exact HF|apply elems_unfold].
-Qed.
-
-(* ---- the proved class lies inside `plain`, is closed under std_normal; idempotence on it ------ *)
+(* ---- elements, fields and bytes ------------------------------------------------------------------ *)
 Lemma In_elems_fields : forall s e, In e (elems s) -> In e (fields s).
 Proof.
   intros s e H. rewrite elems_unfold in H. unfold elems_of in H.
@@ -754,35 +407,6 @@ Proof.
   destruct (filter (fun e => negb (is_empty e)) X) as [|n names].
   - destruct (is_empty l); [destruct H|]. destruct H as [<- | []]. apply in_or_app. right. left. reflexivity.
   - apply in_app_or in H as [H | [<- | []]]; [apply Hn; exact H|apply in_or_app; right; left; reflexivity].
-Qed.
-
-Lemma all_dots_ends : forall e, all_dots e = true -> (2 <= length e)%nat -> ends_dotdot e = true.
-Proof.
-  induction e as [|a e IH]; intros H L; [cbn in L; lia|].
-  destruct e as [|b [|c e'']]; [cbn in L; lia| |].
-  - cbn in H. cbn. apply andb_true_iff in H as [H1 H2]. apply andb_true_iff in H2 as [H2 _]. rewrite H1, H2. reflexivity.
-  - change (ends_dotdot (a :: b :: c :: e'')) with (ends_dotdot (b :: c :: e'')). apply IH; [|cbn; lia].
-    cbn [all_dots] in H. apply andb_true_iff in H as [_ H]. exact H.
-Qed.
-
-Lemma no_dotdot_tail_plain : forall s, no_dotdot_tail s = true -> plain s = true.
-Proof.
-  intros s H. unfold no_dotdot_tail in H. apply andb_true_iff in H as [HA HF].
-  assert (HE : forall e, In e (elems s) -> ends_dotdot e = false).
-  { intros e He. rewrite forallb_forall in HF. apply negb_true_iff. apply HF. apply In_elems_fields. exact He. }
-  unfold plain. rewrite HA. cbn [andb].
-  assert (class_B s = false) as ->.
-  { unfold class_B. destruct (existsb _ (elems s)) eqn:E; [|reflexivity].
-    apply existsb_exists in E as (e & He & P). apply andb_true_iff in P as [P1 P2].
-    apply Nat.leb_le in P2. pose proof (HE e He) as Q. rewrite (all_dots_ends e P1 ltac:(lia)) in Q. discriminate. }
-  assert (class_C s = false) as ->.
-  { unfold class_C. destruct (existsb _ (elems s)) eqn:E; [|reflexivity].
-    apply existsb_exists in E as (e & He & P). apply andb_true_iff in P as [_ P]. rewrite (HE e He) in P. discriminate. }
-  assert (class_D s = false) as ->.
-  { unfold class_D. destruct (existsb is_dotdot (elems s)) eqn:E; [|reflexivity].
-    apply existsb_exists in E as (e & He & P). apply is_dotdot_eq in P. subst e.
-    specialize (HE _ He). cbn in HE. discriminate. }
-  reflexivity.
 Qed.
 
 Lemma normal_elems_forall : forall (P : elem -> Prop) R es, P [DOT] -> P [] -> Forall P es ->
@@ -814,44 +438,3 @@ Proof.
   apply Forall_app. split; [exact H2|constructor; [exact Qs|apply IH; exact H3]].
 Qed.
 
-Lemma std_normal_in_class : forall s, c_string s -> no_dotdot_tail s = true ->
-  c_string (std_normal s) /\ no_dotdot_tail (std_normal s) = true.
-Proof.
-  intros s Hc H. destruct s as [|c s']; [split; [constructor|reflexivity]|].
-  set (s := c :: s') in *. change (std_normal s) with (render (has_root s) (normal_elems (has_root s) (elems s))).
-  pose proof (normal_elems_wf s) as W. set (es' := normal_elems (has_root s) (elems s)) in *.
-  unfold no_dotdot_tail in H. apply andb_true_iff in H as [_ HF].
-  split.
-  - (* bytes *)
-    assert (Forall (Forall (fun x => x <> 0)) es').
-    { apply normal_elems_forall; [repeat constructor; discriminate|constructor|].
-      apply Forall_forall. intros e He. apply In_elems_fields in He.
-      pose proof (fields_forall_bytes (fun x => x <> 0) s Hc) as FB. rewrite Forall_forall in FB. apply FB. exact He. }
-    unfold c_string, render. apply Forall_app. split.
-    + destruct (has_root s); repeat constructor. discriminate.
-    + apply join_forall_bytes; [discriminate|assumption].
-  - (* class *)
-    assert (HP : Forall (fun e => ends_dotdot e = false) es').
-    { apply normal_elems_forall; [reflexivity|reflexivity|].
-      apply Forall_forall. intros e He. apply In_elems_fields in He.
-      rewrite forallb_forall in HF. apply negb_true_iff. apply HF. exact He. }
-    assert (HJ : forallb (fun e => negb (ends_dotdot e)) (fields (join_elems es')) = true).
-    { destruct es' as [|e0 es0] eqn:E; [reflexivity|].
-      rewrite fields_join; [|apply wf_sepfree; exact W|discriminate].
-      apply forallb_forall. intros x Hx. rewrite Forall_forall in HP. rewrite (HP x Hx). reflexivity. }
-    pose proof (wf_head_not_sep es' W) as HR.
-    unfold no_dotdot_tail, render. destruct (has_root s); cbn [app].
-    + apply andb_true_iff. split.
-      * unfold class_A. destruct (join_elems es') as [|d t]; [reflexivity|]. cbn in HR. rewrite HR, andb_false_r. reflexivity.
-      * cbn [fields]. rewrite Z.eqb_refl. cbn [forallb ends_dotdot negb andb]. exact HJ.
-    + apply andb_true_iff. split; [|exact HJ].
-      unfold class_A. destruct (join_elems es') as [|d [|d2 t]]; [reflexivity|reflexivity|]. cbn in HR. rewrite HR. reflexivity.
-Qed.
-
-Lemma zix_normal_idem_on_class : forall s, c_string s -> no_dotdot_tail s = true ->
-  zix_normal (zix_normal s) = zix_normal s.
-Proof.
-  intros s Hc H. unfold zix_normal at 2 3. rewrite (zix_normal_on_class s Hc H).
-  destruct (std_normal_in_class s Hc H) as [Hc' H']. unfold zix_normal.
-  rewrite (zix_normal_on_class _ Hc' H'). apply std_normal_idem.
-Qed.
